@@ -2,6 +2,10 @@
 //! (C01, C05, C06, C08, C12, C15). One binary per feature configuration (`sdoc` = default,
 //! `sdocx` = grammar-extras); the parent (`sdoc`) runs worker pools of both and merges.
 mod c01;
+mod c05;
+mod c08;
+mod c12;
+mod c15;
 mod corpus;
 mod gram;
 mod model;
@@ -29,6 +33,23 @@ fn worker_main(cfg: &Cfg, mut w: Worker) -> ! {
             let slices = corpus::standard(cfg.quick(), scale);
             corpus::for_each_grammar(&slices, &mut w, &mut stats, |p, st| c01::check_grammar(p, &known, st));
         }
+        "C05" => {
+            let slices = corpus::standard(cfg.quick(), scale - 1);
+            corpus::for_each_grammar(&slices, &mut w, &mut stats, |p, st| c05::check_grammar(p, &known, st));
+        }
+        "C08" => {
+            let slices = corpus::standard(cfg.quick(), scale);
+            corpus::for_each_grammar(&slices, &mut w, &mut stats, |p, st| c08::check_grammar(p, &known, st));
+        }
+        "C12" => {
+            let slices = corpus::small(cfg.quick());
+            let max_calls = if cfg.quick() { 60 } else { 400 };
+            corpus::for_each_grammar(&slices, &mut w, &mut stats, |p, st| c12::check_grammar(p, &known, st, max_calls));
+        }
+        "C15" => {
+            let slices = corpus::standard(cfg.quick(), scale - 1);
+            corpus::for_each_grammar(&slices, &mut w, &mut stats, |p, st| c15::check_grammar(p, &known, st));
+        }
         o => {
             eprintln!("unknown property {o}");
             std::process::exit(2)
@@ -55,6 +76,10 @@ fn main() {
         }
         let ok = match property.as_str() {
             "C01" => c01::replay(&case),
+            "C05" => c05::replay(&case),
+            "C08" => c08::replay(&case),
+            "C12" => c12::replay(&case),
+            "C15" => c15::replay(&case),
             _ => true,
         };
         if ok {
@@ -95,9 +120,33 @@ fn main() {
             "grammars = frame (WHITESPACE/COMMENT set-up x rule modifier x callee rule) x expression trees by size over 20 leaves / 10 unary / 2 binary operators, plus rewrite-redex slices; every accepted grammar x start rule x every input up to the length bound over the grammar's alphabet; model = S_doc on the unoptimized AST, real = pest_vm on parse_and_optimize output; compared: match/fail/documented panic and the full token stream. Distinct: grammar texts are de-duplicated, inputs enumerated without repetition. Non-trivial: the run consumed input, emitted a token or failed beyond offset 0",
             vec!["S_doc clauses M1-M14 of DESIGN.md are the reading of the prose".into(), "cases the model classifies as diverging/capped are not executed (C06 owns them)".into(), "bounded: expression size, input length, two feature configurations".into()],
         ),
+        "C05" => (
+            "translation_validation",
+            "program = a rule set rewritten by one optimizer pass alone, by a pipeline prefix, or by restore_on_err (grammars no pass touches are skipped and counted); each program is validated against the written grammar on every start rule x every input up to the length bound: layers 1-2 compare S_doc before/after the rewrite (consumed length, token stream, final stack), layer 3 runs the real VM on optimize(G). A disagreement is 'checked' when it has been attributed to a pass and either matched to a known finding or reported",
+            vec!["S_doc (incl. its reading of Skip) is the semantics both sides are judged by".into(), "bounded: expression size, input length".into(), "optimize() == composition of the exposed passes is itself checked per grammar".into()],
+        ),
+        "C08" => (
+            "exploration",
+            "every failing (grammar, start rule, input) of the shared corpus on the VM back-end (the generated back-end is compared with the VM in C02, which includes error position and both lists); oracle = attempt forest of S_doc on the optimized rules: furthest reportable attempt position, every listed rule attempted exactly there with the right polarity, strictly ascending lists, and the collapse rule as an equality with the fold of DESIGN Appendix B. Non-trivial: the failure position is beyond offset 0 or more than one rule is listed",
+            vec!["reportable = non-silent rule (or EOI) whose own rule() runs outside Atomic mode".into(), "acceptance disagreements are left to C01".into()],
+        ),
+        "C12" => (
+            "exploration",
+            "for every (grammar, start rule, input) of the small corpus (all frames, expression size <= 2 everywhere and <= 3 in the plain frames, redex slices): the unlimited result, the exact number of calls C counted by the call tracker (hook H2), then every limit 1..=C+1 on the VM back-end; each limited result must equal the unlimited one or be the 'call limit reached' error, and the set of limits that complete must be upward closed. Distinct: (case, limit) pairs; non-trivial: 1 < limit <= C (the limit bites somewhere inside the parse)",
+            vec!["process-global call limit is owned by single-threaded worker processes".into(), "cases needing more calls than the tier's cap are counted and skipped".into()],
+        ),
+        "C15" => (
+            "exploration",
+            "every (grammar, start rule, input) of the shared corpus is parsed twice on the VM back-end, with set_error_detail(false) and (true); results must be identical (tokens, or error position and both lists, or the same documented panic); with detail on, the recorded attempts must name a character-boundary position inside the input, expected_tokens/unexpected_tokens/call_stacks must be readable and parse_attempts_error must render. Non-trivial: the parse fails or emits at least one token",
+            vec!["process-global detail switch is owned by single-threaded worker processes".into(), "cases the model classifies as diverging are not executed".into()],
+        ),
         _ => ("exploration", "", vec![]),
     };
     let mut cov = vcore::Map::new();
     cov.insert("rule".into(), json!(rule));
+    if property == "C05" {
+        cov.insert("programs".into(), json!(stats.get("programs")));
+        cov.insert("disagreements_checked".into(), json!(stats.get("disagreements_checked")));
+    }
     verdict::conclude(verdict::Report { property: &property, level, cfg: &cfg, stats, coverage: cov, assumptions })
 }
